@@ -1,3 +1,4 @@
+import Noodles.Props.C12Comp
 import Noodles.Props.C12More
 import Noodles.Io.Loops
 import Noodles.Io.LoopsProof
